@@ -132,9 +132,15 @@ L_Iter ==
   /\ \A i \in 0..(n0 - 1) : FlipAt(a, i) # a /\ FlipAt(FlipAt(a, i), i) = a /\ ~Eq(a, FlipAt(a, i))
   /\ Eq(a, a)
 
+L_RLE ==
+  LET r == RLE(Long) q == RLE(a) IN
+  /\ UnRLE(r) = Long /\ UnRLE(q) = a
+  /\ \A k \in 1..Len(r) : r[k][2] > 0 /\ (k > 1 => r[k - 1][1] # r[k][1])      \* maximal runs
+  /\ (a = <<>>) = (q = <<>>)
+
 Laws == mode = "law" =>
   /\ L_Algebra /\ L_SliceCommutes /\ L_Quat /\ L_Count /\ L_Runs /\ L_FindNth
-  /\ L_Chunks /\ L_Splice /\ L_Validity /\ L_Iter
+  /\ L_Chunks /\ L_Splice /\ L_Validity /\ L_Iter /\ L_RLE
 
 ---------------------------------------------------------------------------
 Init == mode = "seed" /\ a = <<>> /\ b = <<>>
